@@ -3,11 +3,15 @@
 package req
 
 import (
+	"bytes"
+	"compress/gzip"
+	"context"
 	"encoding/json"
 	"encoding/xml"
 	"errors"
 	"fmt"
 	"io"
+	"io/fs"
 	"math/rand"
 	"net/http"
 	"net/http/httptest"
@@ -21,6 +25,7 @@ import (
 	"sync"
 	"sync/atomic"
 	"testing"
+	"time"
 
 	"github.com/imroc/req/v3/internal/verifh"
 )
@@ -33,9 +38,32 @@ type c18Http struct {
 	ct     string
 	body   string
 	readOK bool
+	// what the client's response-body transformer does with this body: "-" none installed,
+	// "k" accepts (strips the '#' the script peer prepends), "n<i>" fails with sentinel i and a
+	// nil body, "b<i>" fails with sentinel i and returns the (stripped) body all the same
+	xf string
 	// derived facts handed to the model
 	custom        string // verdict of the custom checker ("-" = none installed)
 	jsonOK, xmlOK bool
+}
+
+func (h *c18Http) xfEnc() string {
+	if h.xf == "" || h.xf == "-" {
+		return "-"
+	}
+	if h.xf == "k" {
+		return "k"
+	}
+	return h.xf[:1] + "s" + h.xf[1:]
+}
+
+// wire is the body the peer sends: with a transformer installed it is marked, and only the
+// transformer's output is what the unmarshallers accept.
+func (h *c18Http) wire() string {
+	if h.xf == "" || h.xf == "-" {
+		return h.body
+	}
+	return "#" + h.body
 }
 
 type c18TOut struct {
@@ -65,6 +93,37 @@ type c18Scenario struct {
 	checker                                              c18Checker
 	verb                                                 int
 	e2e                                                  string // base URL of the loopback origin (\"\" = scripted http.RoundTripper)
+	// how the client that runs the call is obtained (not part of the model line: by
+	// Req.Props.C18Clone the call of a client runs that client's own settings whatever its lineage):
+	// 0 = configured directly; 1 = a prefix of the configuration steps on a parent, Clone, the rest on
+	// the copy, decoy stages/settings on the parent afterwards, call on the copy; 2 = the mirror image
+	// (decoys on a copy taken midway, call on the original); 3 = two generations of 1
+	path  int
+	split int // selects the clone point(s) among the configuration steps
+	// a response-body transformer is installed on the client (every scripted response then says what
+	// it does with that body: c18Http.xf)
+	xform bool
+	// Request.SetOutput (verb even) / SetOutputFile (verb odd); outFails: per attempt, writing /
+	// creating the output fails
+	save     bool
+	outFails []bool
+	// SetRetryCount(-1): nothing bounds the attempts but the scripted retry conditions
+	unbounded bool
+	// per attempt: the request's context is cancelled when the wait before the next attempt begins
+	ctxDone []bool
+	// loopback lane only — how the origin frames the body (content presence as the wire shows it):
+	// 0 = Content-Length (0 for an empty body), 1 = chunked (headers flushed first: an empty body is a
+	// lone last-chunk), 2 = gzip-encoded when the client offers it (an empty body is an empty gzip
+	// stream); head = the request method is HEAD (no body whatever the script says)
+	framing int
+	head    bool
+	// loopback lane only: the origin first answers 302 (with a JSON body of its own) and the
+	// transport follows it — one more exchange inside httpClient.Do; everything the caller gets must
+	// belong to the final answer
+	redir bool
+	// use the package-level wrapper (req.Get, req.MustPost, …: the default client) when the scenario
+	// configures nothing at request level
+	pkg bool
 }
 
 var c18ErrGetBody = errors.New("c18 GetBody failure")
@@ -91,6 +150,10 @@ func c18PipeErrName(err error) string {
 	var ue *url.Error
 	if errors.As(err, &ue) && ue.Op == "parse" {
 		return "builtin"
+	}
+	var pe *fs.PathError
+	if errors.As(err, &pe) {
+		return "output" // SetOutputFile: the file or its directory cannot be created
 	}
 	return n
 }
@@ -160,14 +223,19 @@ func c18Facts(h *c18Http, ck c18Checker) {
 	}
 }
 
-func c18ErrArg(i int) string { return "s" + strconv.Itoa(i) }
+func c18ErrArg(i int) string {
+	if i == c18CtxCanceled {
+		return "ctxcanceled"
+	}
+	return "s" + strconv.Itoa(i)
+}
 
 func (t c18TOut) enc() string {
 	if t.fail >= 0 {
 		return "f" + c18ErrArg(t.fail)
 	}
 	h := t.h
-	return fmt.Sprintf("r%d:%s:%s:%s:%s:%s", h.status, h.custom, c18b(h.readOK), c18b(h.jsonOK), c18b(h.xmlOK), verifh.Hex(h.ct))
+	return fmt.Sprintf("r%d:%s:%s:%s:%s:%s:%s", h.status, h.custom, c18b(h.readOK), c18b(h.jsonOK), c18b(h.xmlOK), verifh.Hex(h.ct), h.xfEnc())
 }
 
 func (a c18Act) enc() string {
@@ -198,7 +266,7 @@ func c18EncStages(st [][]c18Act) string {
 }
 
 func (sc *c18Scenario) line(fixes string) string {
-	flags := c18b(sc.builderErr) + c18b(sc.unreplayable) + c18b(sc.sT) + c18b(sc.eT) + c18b(sc.cE) + c18b(sc.autoRead) + c18b(sc.hook)
+	flags := c18b(sc.builderErr) + c18b(sc.unreplayable) + c18b(sc.sT) + c18b(sc.eT) + c18b(sc.cE) + c18b(sc.autoRead) + c18b(sc.hook) + c18b(sc.save)
 	bi := "-"
 	if len(sc.builtin) > 0 {
 		p := make([]string, len(sc.builtin))
@@ -236,8 +304,30 @@ func (sc *c18Scenario) line(fixes string) string {
 			conds = "0"
 		}
 	}
-	return fmt.Sprintf("c18pipe %s %c %s %s %s %s %s %s %s %s %d:%s", fixes, sc.entry, flags, c18EncStages(sc.udReq), bi,
-		c18EncStages(sc.wrappers), gb, tr, c18EncStages(sc.clientResp), c18EncStages(sc.reqResp), sc.maxRetries, conds)
+	bits := func(l []bool) string {
+		if len(l) == 0 {
+			return "-"
+		}
+		o := ""
+		for _, b := range l {
+			o += c18b(b)
+		}
+		return o
+	}
+	n := strconv.Itoa(sc.maxRetries)
+	if sc.unbounded {
+		n = "u" + strconv.Itoa(sc.natt()+2) // fuel: the attempts the script describes, and a margin
+	}
+	return fmt.Sprintf("c18pipe %s %c %s %s %s %s %s %s %s %s %s:%s:%s %s", fixes, sc.entry, flags, c18EncStages(sc.udReq), bi,
+		c18EncStages(sc.wrappers), gb, tr, c18EncStages(sc.clientResp), c18EncStages(sc.reqResp), n, conds, bits(sc.ctxDone), bits(sc.outFails))
+}
+
+// natt: how many attempts the script describes
+func (sc *c18Scenario) natt() int {
+	if sc.unbounded {
+		return len(sc.conds)
+	}
+	return sc.maxRetries + 1
 }
 
 func c18At[T any](l []T, a int, d T) T {
@@ -263,10 +353,34 @@ type c18Obs struct {
 	okT          c18T
 	erT          c18E
 	unmCalls     []c18UnmCall
-	builtBefore  bool // a request middleware saw RawRequest already built in the first attempt
-	builtinFirst bool // a user request middleware saw Request.URL already parsed in the first attempt
-	noBuiltin    bool // a later stage ran although Request.URL was never parsed
-	nilRespSeen  bool // a request-level response middleware was handed a nil *Response
+	builtBefore  bool          // a request middleware saw RawRequest already built in the first attempt
+	builtinFirst bool          // a user request middleware saw Request.URL already parsed in the first attempt
+	noBuiltin    bool          // a later stage ran although Request.URL was never parsed
+	nilRespSeen  bool          // a request-level response middleware was handed a nil *Response
+	foreign      []string      // stages / settings of ANOTHER client (parent or copy) that took part in the call
+	outW         *c18OutWriter // SetOutput variant: what was written
+	outFile      string        // SetOutputFile variant: the path of the last attempt
+	runaway      bool          // an unbounded retry went on beyond the attempts the script describes
+	fileFail     bool          // SetOutputFile variant: some attempt was given a path that cannot be created
+}
+
+// c18OutDir is where the SetOutputFile variant writes (set by the lane to t.TempDir()).
+var c18OutDir string
+
+// c18OutWriter is the SetOutput target: Write fails on the attempts the script says.
+type c18OutWriter struct {
+	buf    []byte
+	fail   func() bool
+	onFail func()
+}
+
+func (w *c18OutWriter) Write(p []byte) (int, error) {
+	if w.fail() {
+		w.onFail()
+		return 0, c18ErrOutput
+	}
+	w.buf = append(w.buf, p...)
+	return len(p), nil
 }
 
 type c18UnmCall struct {
@@ -297,10 +411,39 @@ const c18Challenge = `Digest realm="r", nonce="abc", qop="auth", algorithm=MD5`
 
 var c18Verbs = []string{"Get", "Post", "Put", "Patch", "Delete", "Options", "Head"}
 
+// c18VerbMethods enumerates, by reflection, EVERY method of *Request with the shape of a verb
+// helper — func(url string) (*Response, error) — and of a Must helper — func(url string) *Response:
+// a verb added to the library is exercised without touching the harness. (The package-level
+// wrappers cannot be enumerated; the regenerated fact Generated.C18Entry lists them.)
+var c18VerbMethods = func() (l struct{ verbs, musts, bodyVerbs []string }) {
+	t := reflect.TypeOf(&Request{})
+	respT, errT := reflect.TypeOf(&Response{}), reflect.TypeOf((*error)(nil)).Elem()
+	for i := 0; i < t.NumMethod(); i++ {
+		m := t.Method(i)
+		ft := m.Type
+		if ft.NumIn() != 2 || ft.In(1).Kind() != reflect.String || ft.IsVariadic() {
+			continue
+		}
+		switch {
+		case ft.NumOut() == 2 && ft.Out(0) == respT && ft.Out(1) == errT:
+			l.verbs = append(l.verbs, m.Name)
+			if m.Name == "Post" || m.Name == "Put" || m.Name == "Patch" {
+				l.bodyVerbs = append(l.bodyVerbs, m.Name)
+			}
+		case ft.NumOut() == 1 && ft.Out(0) == respT:
+			l.musts = append(l.musts, m.Name)
+		}
+	}
+	return
+}()
+
 func c18Run(sc *c18Scenario) *c18Obs {
 	o := &c18Obs{facts: map[string]*c18Http{}}
-	c := C()
+	var c *Client // the client that runs the call (obtained below, directly or through Clone)
 	var req *Request
+	// the client-level configuration as a list of steps, so that Clone can be interposed anywhere
+	var steps []func(c *Client)
+	add := func(f func(c *Client)) { steps = append(steps, f) }
 	att := func() int {
 		if req == nil { // package-level entry point: the request is created inside the call (no retry there)
 			return 0
@@ -346,35 +489,61 @@ func c18Run(sc *c18Scenario) *c18Obs {
 	}
 
 	if sc.checker.fn != nil {
-		c.SetResultStateCheckFunc(sc.checker.fn)
+		add(func(c *Client) { c.SetResultStateCheckFunc(sc.checker.fn) })
 	}
 	if sc.cE {
-		c.SetCommonErrorResult(&c18C{})
+		add(func(c *Client) { c.SetCommonErrorResult(&c18C{}) })
 	}
 	reqLevelNoAutoRead := !sc.autoRead && sc.verb%2 == 1 // auto-read is switched off at either level
 	if !sc.autoRead && !reqLevelNoAutoRead {
-		c.DisableAutoReadResponse()
+		add(func(c *Client) { c.DisableAutoReadResponse() })
 	}
 	if sc.hook {
-		c.OnError(func(*Client, *Request, *Response, error) { o.hooks++ })
+		add(func(c *Client) { c.OnError(func(*Client, *Request, *Response, error) { o.hooks++ }) })
 	}
-	c.SetJsonUnmarshal(func(b []byte, v interface{}) error {
-		ev("j")
-		o.unmCalls = append(o.unmCalls, c18UnmCall{false, string(b), v})
-		if err := json.Unmarshal(b, v); err != nil {
-			raise("unm")
-			return &c18UnmErr{err}
-		}
-		return nil
+	if sc.xform {
+		// the response-body transformer: its outcome is scripted per exchange (looked up by the
+		// X-Tag of the response at hand)
+		add(func(c *Client) {
+			c.SetResponseBodyTransformer(func(raw []byte, _ *Request, resp *Response) ([]byte, error) {
+				var h *c18Http
+				if resp != nil && resp.Response != nil {
+					h = o.facts[resp.Header.Get("X-Tag")]
+				}
+				out := append([]byte{}, strings.TrimPrefix(string(raw), "#")...)
+				if h == nil || len(h.xf) < 2 {
+					return out, nil
+				}
+				i, _ := strconv.Atoi(h.xf[1:])
+				raise(c18ErrArg(i))
+				if h.xf[0] == 'n' {
+					return nil, c18Sentinels[i]
+				}
+				return out, c18Sentinels[i] // fails, and hands back what it made of the body
+			})
+		})
+	}
+	add(func(c *Client) {
+		c.SetJsonUnmarshal(func(b []byte, v interface{}) error {
+			ev("j")
+			o.unmCalls = append(o.unmCalls, c18UnmCall{false, string(b), v})
+			if err := json.Unmarshal(b, v); err != nil {
+				raise("unm")
+				return &c18UnmErr{err}
+			}
+			return nil
+		})
 	})
-	c.SetXmlUnmarshal(func(b []byte, v interface{}) error {
-		ev("x")
-		o.unmCalls = append(o.unmCalls, c18UnmCall{true, string(b), v})
-		if err := xml.Unmarshal(b, v); err != nil {
-			raise("unm")
-			return &c18UnmErr{err}
-		}
-		return nil
+	add(func(c *Client) {
+		c.SetXmlUnmarshal(func(b []byte, v interface{}) error {
+			ev("x")
+			o.unmCalls = append(o.unmCalls, c18UnmCall{true, string(b), v})
+			if err := xml.Unmarshal(b, v); err != nil {
+				raise("unm")
+				return &c18UnmErr{err}
+			}
+			return nil
+		})
 	})
 	// which digest script applies in attempt a (first digest stage)
 	digestAt := func(a int) *c18Act {
@@ -390,9 +559,9 @@ func c18Run(sc *c18Scenario) *c18Obs {
 		o.facts[strconv.Itoa(tag)] = h
 		var body io.ReadCloser
 		if h.readOK {
-			body = io.NopCloser(strings.NewReader(h.body))
+			body = io.NopCloser(strings.NewReader(h.wire()))
 		} else {
-			body = &c18FailReader{r: strings.NewReader(h.body), err: c18ErrRead, onFail: func() { raise("read") }}
+			body = &c18FailReader{r: strings.NewReader(h.wire()), err: c18ErrRead, onFail: func() { raise("read") }}
 		}
 		return &http.Response{StatusCode: h.status, Status: strconv.Itoa(h.status) + " X", Proto: "HTTP/1.1", ProtoMajor: 1, ProtoMinor: 1,
 			Header: c18HTTPHeader(h, tag, chal), Body: body, ContentLength: -1, Request: r}
@@ -402,6 +571,13 @@ func c18Run(sc *c18Scenario) *c18Obs {
 		sends := 0
 		id := strconv.FormatInt(c18E2ESeq.Add(1), 10)
 		c18E2EHandlers.Store(id, http.HandlerFunc(func(w http.ResponseWriter, r *http.Request) {
+			if sc.redir && r.URL.Query().Get("hop") == "" {
+				w.Header().Set("Location", r.URL.Path+"?hop=1")
+				w.Header().Set("Content-Type", "application/json")
+				w.WriteHeader(http.StatusFound)
+				io.WriteString(w, `{"a":"redirect-hop","n":99,"msg":"not the final answer"}`)
+				return
+			}
 			var h *c18Http
 			tag, chal := 0, ""
 			if strings.HasPrefix(r.Header.Get("Authorization"), "Digest ") {
@@ -425,12 +601,33 @@ func c18Run(sc *c18Scenario) *c18Obs {
 			if h.ct == "" {
 				hd["Content-Type"] = nil // suppress the server's content sniffing
 			}
+			wire := h.wire()
+			noBody := r.Method == "HEAD" || h.status == 204 || h.status == 304
+			if sc.framing == 2 && !noBody && strings.Contains(r.Header.Get("Accept-Encoding"), "gzip") {
+				var zb bytes.Buffer
+				zw := gzip.NewWriter(&zb)
+				io.WriteString(zw, wire)
+				zw.Close()
+				hd.Set("Content-Encoding", "gzip")
+				wire = zb.String()
+			}
 			w.WriteHeader(h.status)
-			io.WriteString(w, h.body)
+			if sc.framing == 1 {
+				if fl, ok := w.(http.Flusher); ok {
+					fl.Flush() // headers go out before the length is known: chunked
+				}
+			}
+			io.WriteString(w, wire)
 		}))
 		defer c18E2EHandlers.Delete(id)
 		sc.e2e = strings.TrimSuffix(sc.e2e, "/") + "/c/" + id
-	} else {
+	}
+	// the scripted transport is plugged into the client that runs the call, once it exists
+	// (Clone gives the copy a transport of its own)
+	setupTransport := func() {
+		if sc.e2e != "" {
+			return
+		}
 		// first exchange of every attempt: the http.Client's transport
 		c.GetClient().Transport = rtFuncC18(func(r *http.Request) (*http.Response, error) {
 			late()
@@ -468,20 +665,22 @@ func c18Run(sc *c18Scenario) *c18Obs {
 	// user request middleware
 	for i := range sc.udReq {
 		i := i
-		c.OnBeforeRequest(func(_ *Client, r *Request) error {
-			ev("u" + strconv.Itoa(i))
-			if r.RetryAttempt == 0 && r.RawRequest != nil {
-				o.builtBefore = true
-			}
-			if r.RetryAttempt == 0 && r.URL != nil {
-				o.builtinFirst = true
-			}
-			act := c18At(sc.udReq[i], att(), c18Act{kind: "o"})
-			if act.kind == "f" {
-				raise(c18ErrArg(act.e))
-				return c18Sentinels[act.e]
-			}
-			return nil
+		add(func(c *Client) {
+			c.OnBeforeRequest(func(_ *Client, r *Request) error {
+				ev("u" + strconv.Itoa(i))
+				if r.RetryAttempt == 0 && r.RawRequest != nil {
+					o.builtBefore = true
+				}
+				if r.RetryAttempt == 0 && r.URL != nil {
+					o.builtinFirst = true
+				}
+				act := c18At(sc.udReq[i], att(), c18Act{kind: "o"})
+				if act.kind == "f" {
+					raise(c18ErrArg(act.e))
+					return c18Sentinels[act.e]
+				}
+				return nil
+			})
 		})
 	}
 	// hidden last user middleware: makes the built-in block fail on scripted attempts (bad URL)
@@ -489,15 +688,33 @@ func c18Run(sc *c18Scenario) *c18Obs {
 	if sc.e2e != "" {
 		goodURL = sc.e2e
 	}
-	c.OnBeforeRequest(func(_ *Client, r *Request) error {
-		touch()
-		if c18At(sc.builtin, att(), false) {
-			raise("builtin")
-			r.RawURL = "http://[::1"
-		} else {
-			r.RawURL = goodURL
-		}
-		return nil
+	add(func(c *Client) {
+		c.OnBeforeRequest(func(_ *Client, r *Request) error {
+			touch()
+			if sc.save && sc.verb%2 == 1 { // SetOutputFile variant: the path is chosen per attempt
+				dir := c18OutDir
+				if dir == "" {
+					dir = os.TempDir()
+				}
+				if c18At(sc.outFails, att(), false) {
+					o.fileFail = true
+					blocker := filepath.Join(dir, "c18-blocker")
+					os.WriteFile(blocker, []byte("x"), 0o600)
+					r.SetOutputFile(filepath.Join(blocker, "sub", "x.out")) // parent is a regular file: cannot be created
+				} else {
+					o.outFile = filepath.Join(dir, "c18-"+strconv.Itoa(sc.verb)+".out")
+					os.Remove(o.outFile)
+					r.SetOutputFile(o.outFile)
+				}
+			}
+			if c18At(sc.builtin, att(), false) {
+				raise("builtin")
+				r.RawURL = "http://[::1"
+			} else {
+				r.RawURL = goodURL
+			}
+			return nil
+		})
 	})
 	// wrapping round-trippers
 	fresh := map[*Response]bool{}
@@ -548,41 +765,57 @@ func c18Run(sc *c18Scenario) *c18Obs {
 	switch sc.verb % 3 {
 	case 0:
 		for _, w := range wfuncs {
-			c.WrapRoundTripFunc(w)
+			w := w
+			add(func(c *Client) { c.WrapRoundTripFunc(w) })
 		}
 	case 1:
-		c.WrapRoundTripFunc(wfuncs...)
+		add(func(c *Client) { c.WrapRoundTripFunc(wfuncs...) })
 	default:
 		var ws []RoundTripWrapper
 		for _, w := range wfuncs {
 			w := w
 			ws = append(ws, func(rt RoundTripper) RoundTripper { return w(rt) })
 		}
+		// (capacity clipped: WrapRoundTrip keeps the caller's variadic slice and appends to it later, so
+		// a sub-slice with spare capacity would let a later registration overwrite ws[k] — an aliasing
+		// corner of the library outside C18, see notes/C18.md)
 		k := len(ws) / 2
-		c.WrapRoundTrip(ws[:k]...)
-		c.WrapRoundTrip(ws[k:]...)
+		add(func(c *Client) { c.WrapRoundTrip(ws[:k:k]...) })
+		add(func(c *Client) { c.WrapRoundTrip(ws[k:]...) })
 	}
 	// user client-level response middleware
 	for i := range sc.clientResp {
 		i := i
-		c.OnAfterResponse(func(_ *Client, resp *Response) error {
-			ev("c" + strconv.Itoa(i))
-			act := c18At(sc.clientResp[i], att(), c18Act{kind: "n"})
-			switch act.kind {
-			case "r":
-				raise(c18ErrArg(act.e))
-				return c18Sentinels[act.e]
-			case "s":
-				raise(c18ErrArg(act.e))
-				resp.Err = c18Sentinels[act.e]
-			case "c":
-				resp.Err = nil
-			}
-			return nil
+		add(func(c *Client) {
+			c.OnAfterResponse(func(_ *Client, resp *Response) error {
+				ev("c" + strconv.Itoa(i))
+				act := c18At(sc.clientResp[i], att(), c18Act{kind: "n"})
+				switch act.kind {
+				case "r":
+					raise(c18ErrArg(act.e))
+					return c18Sentinels[act.e]
+				case "s":
+					raise(c18ErrArg(act.e))
+					resp.Err = c18Sentinels[act.e]
+				case "c":
+					resp.Err = nil
+				}
+				return nil
+			})
 		})
 	}
 
-	req = c.R()
+	c = c18Build(sc, steps, o)
+	setupTransport()
+	// the request: R(), NewRequest(), or the client-level verb builders (c.Post() = R() + method)
+	switch sc.verb % 5 {
+	case 2:
+		req = c.Post()
+	case 4:
+		req = c.NewRequest()
+	default:
+		req = c.R()
+	}
 	if reqLevelNoAutoRead {
 		req.DisableAutoReadResponse()
 	}
@@ -639,10 +872,44 @@ func c18Run(sc *c18Scenario) *c18Obs {
 			return nil
 		})
 	}
-	if sc.maxRetries > 0 || sc.conds != nil {
-		req.SetRetryCount(sc.maxRetries).SetRetryFixedInterval(0)
+	if sc.save && sc.verb%2 == 0 {
+		o.outW = &c18OutWriter{fail: func() bool { return c18At(sc.outFails, att(), false) }, onFail: func() { raise("output") }}
+		req.SetOutput(o.outW)
+	} else if sc.save {
+		req.SetOutputFile("c18-placeholder.out") // replaced per attempt by the hidden request middleware
+	}
+	if len(sc.ctxDone) > 0 {
+		ctx, cancel := context.WithCancel(context.Background())
+		defer cancel()
+		req.SetContext(ctx)
+		// the retry hook runs after the retry decision and before the wait: cancelling there makes
+		// the context done exactly when the wait begins (the interval is long so that only the
+		// context can end that wait)
+		req.SetRetryHook(func(*Response, error) {
+			if c18At(sc.ctxDone, att()-1, false) {
+				cancel()
+			}
+		})
+	}
+	if sc.maxRetries > 0 || sc.conds != nil || sc.unbounded {
+		n := sc.maxRetries
+		if sc.unbounded {
+			n = -1
+		}
+		req.SetRetryCount(n).SetRetryInterval(func(_ *Response, attempt int) time.Duration {
+			if c18At(sc.ctxDone, attempt-1, false) {
+				return time.Hour
+			}
+			return 0
+		})
 		if sc.conds != nil {
-			req.SetRetryCondition(func(*Response, error) bool { return c18At(sc.conds, att(), false) })
+			req.SetRetryCondition(func(*Response, error) bool {
+				if att() >= len(sc.conds)+2 {
+					o.runaway = true
+					return false
+				}
+				return c18At(sc.conds, att(), false)
+			})
 		}
 	}
 	needBody := false
@@ -666,14 +933,33 @@ func c18Run(sc *c18Scenario) *c18Obs {
 		req.SetFileUpload(FileUpload{}) // a setter that records an error (missing param name)
 	}
 	method := "POST"
+	if sc.head {
+		method = "HEAD"
+	}
 	verb := c18Verbs[sc.verb%len(c18Verbs)]
+	if sc.head {
+		verb = "Head"
+	}
 	if needBody || sc.unreplayable {
 		verb = []string{"Post", "Put", "Patch"}[sc.verb%3]
+	}
+	// methods of *Request: every verb-shaped / Must-shaped one the library has (by reflection)
+	verbM, mustM := verb, "Must"+verb
+	if vm := c18VerbMethods; len(vm.verbs) > 0 && len(vm.musts) > 0 && sc.e2e == "" {
+		if needBody || sc.unreplayable {
+			if len(vm.bodyVerbs) > 0 {
+				verbM = vm.bodyVerbs[sc.verb%len(vm.bodyVerbs)]
+				mustM = "Must" + verbM
+			}
+		} else {
+			verbM, mustM = vm.verbs[sc.verb%len(vm.verbs)], vm.musts[sc.verb%len(vm.musts)]
+		}
 	}
 	// package-level helpers (req.Get, req.MustPost, …) delegate to the default client; usable
 	// when the scenario configures nothing at request level
 	usePkg := (sc.entry == 'v' || sc.entry == 'm') && !sc.sT && !sc.eT && len(sc.reqResp) == 0 && sc.maxRetries == 0 &&
-		sc.conds == nil && !needBody && !sc.unreplayable && !sc.builderErr && !reqLevelNoAutoRead && sc.verb%4 == 3
+		!sc.save && !sc.unbounded && len(sc.ctxDone) == 0 &&
+		sc.conds == nil && !needBody && !sc.unreplayable && !sc.builderErr && !reqLevelNoAutoRead && sc.pkg
 	if usePkg {
 		req = nil
 		old := DefaultClient()
@@ -698,18 +984,22 @@ func c18Run(sc *c18Scenario) *c18Obs {
 		switch sc.entry {
 		case 'd':
 			req.Method, req.RawURL = method, goodURL
-			o.resp = req.Do()
+			if sc.verb%2 == 0 && len(sc.ctxDone) == 0 {
+				o.resp = req.Do(context.Background()) // Do with a context argument
+			} else {
+				o.resp = req.Do()
+			}
 			if o.resp != nil {
 				o.err = o.resp.Err
 			}
 		case 's':
 			o.resp, o.err = req.Send(method, goodURL)
 		case 'v':
-			out := reflect.ValueOf(req).MethodByName(verb).Call([]reflect.Value{reflect.ValueOf(goodURL)})
+			out := reflect.ValueOf(req).MethodByName(verbM).Call([]reflect.Value{reflect.ValueOf(goodURL)})
 			o.resp, _ = out[0].Interface().(*Response)
 			o.err, _ = out[1].Interface().(error)
 		case 'm':
-			out := reflect.ValueOf(req).MethodByName("Must" + verb).Call([]reflect.Value{reflect.ValueOf(goodURL)})
+			out := reflect.ValueOf(req).MethodByName(mustM).Call([]reflect.Value{reflect.ValueOf(goodURL)})
 			o.resp, _ = out[0].Interface().(*Response)
 			if o.resp != nil {
 				o.err = o.resp.Err
@@ -770,6 +1060,10 @@ func c18ShowLogs(logs [][]string) string {
 // answer renders the observation in the model's canonical form.
 func (o *c18Obs) answer(sc *c18Scenario) string {
 	log := c18ShowLogs(o.logs)
+	if len(o.foreign) > 0 {
+		// never part of a model answer: the call of a client involves that client's stages only
+		log += " foreign=" + strings.Join(o.foreign, ".")
+	}
 	if o.crashed != "" {
 		return "crash log=" + log
 	}
@@ -803,8 +1097,19 @@ func (o *c18Obs) answer(sc *c18Scenario) string {
 	default:
 		es = "?"
 	}
+	// the cached body must be the body of the exchange the response carries (as sent, or as the
+	// body transformer rewrote it)
+	cached := "0"
+	if b := r.Bytes(); b != nil {
+		cached = "1"
+		if r.Response != nil {
+			if f := o.facts[r.Header.Get("X-Tag")]; f != nil && string(b) != f.body && string(b) != f.wire() {
+				cached = "X"
+			}
+		}
+	}
 	return "ret err=" + c18PipeErrName(o.err) + " hooks=" + strconv.Itoa(o.hooks) + " rerr=" + c18PipeErrName(r.Err) + " http=" + tag +
-		" status=" + st + " state=" + state + " cached=" + c18b(r.Bytes() != nil) + " res=" + c18b(r.SuccessResult() != nil) + " eslot=" + es + " log=" + log
+		" status=" + st + " state=" + state + " cached=" + cached + " res=" + c18b(r.SuccessResult() != nil) + " eslot=" + es + " log=" + log
 }
 
 func c18Suppressing(sc *c18Scenario) bool {
@@ -826,10 +1131,19 @@ func (o *c18Obs) oracle(sc *c18Scenario) string {
 	if o.crashed != "" {
 		return "panic: " + o.crashed
 	}
+	if len(o.foreign) > 0 {
+		return "stages/settings of another client (its parent or its copy) took part in the call: " + strings.Join(o.foreign, ".")
+	}
+	if o.runaway {
+		return "the retry loop went on beyond the attempts the retry conditions allow"
+	}
 	verbStyle := sc.entry != 'd'
 	if o.mustPanicked {
 		if o.mustErr == nil {
 			return "Must* panicked without an error"
+		}
+		if strings.HasPrefix(c18PipeErrName(o.mustErr), "other(") {
+			return "Must* panicked with " + c18PipeErrName(o.mustErr) + ", not with the error the non-Must form returns"
 		}
 		if want := map[bool]int{true: 1, false: 0}[sc.hook]; o.hooks != want {
 			return fmt.Sprintf("error hook ran %d times for a failing Must* call, want %d", o.hooks, want)
@@ -856,8 +1170,28 @@ func (o *c18Obs) oracle(sc *c18Scenario) string {
 	if sc.builderErr && r.Err == nil {
 		return "a request setter recorded an error but the call reports none"
 	}
-	if sc.unreplayable && sc.maxRetries != 0 && r.Err == nil {
+	if sc.unreplayable && (sc.maxRetries != 0 || sc.unbounded) && r.Err == nil {
 		return "retry with an unreplayable body was accepted"
+	}
+	if b := r.Bytes(); b != nil && r.Response != nil {
+		if f := o.facts[r.Header.Get("X-Tag")]; f != nil && string(b) != f.body && string(b) != f.wire() {
+			return "the cached body is not the body of the response the caller holds (final exchange)"
+		}
+	}
+	// SetOutput / SetOutputFile: what was saved last is the body of the final exchange
+	if sc.save && r.Err == nil && r.Response != nil && !c18Suppressing(sc) {
+		if f := o.facts[r.Header.Get("X-Tag")]; f != nil && f.body != "" && r.Request != nil && r.Request.Method != "HEAD" &&
+			f.status != 204 && f.status != 304 {
+			var saved []byte
+			if o.outW != nil {
+				saved = o.outW.buf
+			} else if o.outFile != "" {
+				saved, _ = os.ReadFile(o.outFile)
+			}
+			if !strings.HasSuffix(string(saved), f.body) && !strings.HasSuffix(string(saved), f.wire()) {
+				return c18VerdictDigestSave
+			}
+		}
 	}
 	res, es := r.SuccessResult() != nil, r.ErrorResult() != nil
 	if res && es {
@@ -865,6 +1199,24 @@ func (o *c18Obs) oracle(sc *c18Scenario) string {
 	}
 	if r.IsSuccessState() && r.IsErrorState() {
 		return "both states"
+	}
+	// the state predicates classify the response the caller holds NOW (the final exchange): the
+	// oracle's own reading of the checker in force on that status / those headers
+	{
+		want := "U"
+		if r.Response != nil {
+			switch {
+			case sc.checker.fn != nil:
+				want = c18StateName(sc.checker.fn(&Response{Response: r.Response, Request: r.Request}))
+			case r.StatusCode >= 200 && r.StatusCode <= 299:
+				want = "S"
+			case r.StatusCode >= 400:
+				want = "E"
+			}
+		}
+		if got := c18StateName(r.ResultState()); got != want || r.IsSuccessState() != (want == "S") || r.IsErrorState() != (want == "E") {
+			return "the state predicates say " + got + " but the response the caller holds classifies as " + want
+		}
 	}
 	// binding against the final http response
 	var f *c18Http
@@ -879,7 +1231,7 @@ func (o *c18Obs) oracle(sc *c18Scenario) string {
 			return nil, false
 		}
 		v, ok := c18Decode(f.body, c18CtClass(f.ct) == "xml", proto)
-		return v, ok && f.readOK
+		return v, ok && f.readOK && len(f.xf) < 2 // reads, and the body transformer (if any) accepts it
 	}
 	content := f != nil && f.status != 204
 	if res {
@@ -931,13 +1283,13 @@ func (o *c18Obs) oracle(sc *c18Scenario) string {
 			if r.Err == nil {
 				return "a stage of the final attempt raised " + strings.Join(last, ",") + " but the call reports no error"
 			}
-			if n := c18PipeErrName(r.Err); !all[n] && n != "digest" {
+			if n := c18PipeErrName(r.Err); !all[n] && n != "digest" && !(n == "ctxdone" && len(sc.ctxDone) > 0) && !(n == "output" && o.fileFail) {
 				return "the call reports " + n + " which no stage raised"
 			}
 		}
 		if len(all) == 1 && len(last) > 0 {
 			for e := range all {
-				if n := c18PipeErrName(r.Err); n != e && n != "digest" {
+				if n := c18PipeErrName(r.Err); n != e && n != "digest" && !(n == "ctxdone" && len(sc.ctxDone) > 0) && !(n == "output" && o.fileFail) {
 					return "the only error raised is " + e + " but the call reports " + c18PipeErrName(r.Err)
 				}
 			}
@@ -1030,7 +1382,27 @@ func (o *c18Obs) orderOracle(sc *c18Scenario) string {
 // ---------------------------------------------------------------------------------------
 // known-defect classing: the model can be asked for the code as found, fix by fix
 
-var c18FixClasses = []string{"c10-afterresponse-overwrites-err", "c10-nil-resp-retry", "c18-digest-stale-binding"}
+var c18FixClasses = []string{"c10-afterresponse-overwrites-err", "c10-nil-resp-retry", "c18-digest-stale-binding", "c18-digest-download-challenge"}
+
+// c18Repaired is the code variant the model follows: every fix applied.
+const c18Repaired = "1111"
+
+// c18VerdictDigestSave is the oracle's verdict for the known finding c18-digest-download-challenge
+// (fixes/C18-3-digest-download.patch).
+const c18VerdictDigestSave = "the saved output does not end with the body of the final exchange"
+
+func c18ClassOpen(class string) bool {
+	for i, c := range c18FixClasses {
+		if c == class {
+			for _, v := range c18OpenVariants() {
+				if v[i] == '0' {
+					return true
+				}
+			}
+		}
+	}
+	return false
+}
 
 // c18OpenVariants lists the as-found code variants the lane may use to explain a difference:
 // a fix may be switched off only while known-findings.txt still carries the open: line of its
@@ -1045,7 +1417,7 @@ func c18OpenVariants() []string {
 	if err != nil {
 		return nil
 	}
-	open := [3]bool{}
+	open := [4]bool{}
 	for _, l := range strings.Split(string(b), "\n") {
 		l = strings.TrimSpace(l)
 		if !strings.HasPrefix(l, "open:") || !strings.Contains(l, "property=C18 ") {
@@ -1058,10 +1430,10 @@ func c18OpenVariants() []string {
 		}
 	}
 	var out []string
-	for zeros := 1; zeros <= 3; zeros++ {
-		for m := 0; m < 8; m++ {
+	for zeros := 1; zeros <= 4; zeros++ {
+		for m := 0; m < 16; m++ {
 			v, n, ok := "", 0, true
-			for i := 0; i < 3; i++ {
+			for i := 0; i < 4; i++ {
 				if m&(1<<i) != 0 {
 					v += "0"
 					n++
@@ -1085,7 +1457,7 @@ func c18OpenVariants() []string {
 func c18Classify(scs []*c18Scenario, impl []string) (model, variant, class []string, err error) {
 	lines := make([]string, len(scs))
 	for i, sc := range scs {
-		lines[i] = sc.line("111")
+		lines[i] = sc.line(c18Repaired)
 	}
 	model, err = verifh.RunModel(lines)
 	if err != nil {
@@ -1116,7 +1488,7 @@ func c18Classify(scs []*c18Scenario, impl []string) (model, variant, class []str
 		for j, v := range variants { // most-repaired variants first
 			if ans2[k*len(variants)+j] == impl[i] {
 				variant[i] = v
-				for b := 0; b < 3; b++ {
+				for b := 0; b < 4; b++ {
 					if v[b] == '0' {
 						class[i] = c18FixClasses[b]
 						break
@@ -1156,6 +1528,126 @@ func c18GenHTTP(r *rand.Rand, ck c18Checker, wantGood int) *c18Http {
 }
 
 func c18GenErr(r *rand.Rand) int { return 1 + r.Intn(8) }
+
+// c18Finish draws the dimensions every lane shares, after the stack itself has been generated:
+// a response-body transformer (1 in pXform scenarios; then every scripted response says whether
+// the transformer accepts its body, fails returning nil, or fails returning the raw body) and the
+// lineage of the client that runs the call (1 in pClone scenarios goes through Clone).
+func c18Finish(r *rand.Rand, sc *c18Scenario, pXform, pClone int) *c18Scenario {
+	if r.Intn(pXform) == 0 {
+		sc.xform = true
+	}
+	// unbounded retry: SetRetryCount(-1), the scripted retry conditions alone end the loop
+	if sc.maxRetries > 0 && r.Intn(4) == 0 {
+		natt := sc.maxRetries + 1
+		if sc.conds == nil {
+			sc.conds = make([]bool, natt)
+			for i := range sc.conds {
+				sc.conds[i] = r.Intn(3) != 0
+			}
+		}
+		sc.conds[natt-1] = false
+		sc.unbounded, sc.maxRetries = true, 0
+	}
+	natt := sc.natt()
+	// the context is done at the wait before some retry
+	if natt > 1 && r.Intn(5) == 0 {
+		sc.ctxDone = make([]bool, natt)
+		for i := range sc.ctxDone {
+			sc.ctxDone[i] = r.Intn(3) == 0
+		}
+	}
+	// a transport error that wraps context.Canceled
+	if sc.e2e == "" {
+		for i := range sc.transport {
+			if sc.transport[i].fail >= 0 && r.Intn(6) == 0 {
+				sc.transport[i].fail = c18CtxCanceled
+			}
+		}
+	}
+	// SetOutput / SetOutputFile, the output failing on some attempts
+	if r.Intn(5) == 0 {
+		sc.save = true
+		if r.Intn(2) == 0 {
+			sc.outFails = make([]bool, natt)
+			for a := range sc.outFails {
+				sc.outFails[a] = r.Intn(3) == 0
+				if sc.outFails[a] && sc.e2e != "" && a < len(sc.transport) && sc.transport[a].h != nil &&
+					(sc.transport[a].h.status == 204 || sc.transport[a].h.status == 304) {
+					sc.outFails[a] = false // a real origin sends no body with these: nothing would be written
+				}
+				if sc.outFails[a] && a < len(sc.transport) && sc.transport[a].h != nil {
+					// (a read failure and an output failure are not combined, and an empty body never
+					// reaches Write: see Req.Pipeline.download)
+					h := sc.transport[a].h
+					h.readOK = true
+					if h.body == "" {
+						h.body = c18Bodies[0]
+					}
+					c18Facts(h, sc.checker)
+				}
+				if sc.outFails[a] { // likewise the answer to a digest re-send of that attempt
+					for _, st := range sc.reqResp {
+						if a < len(st) && st[a].kind == "d" && st[a].re.h != nil {
+							h := st[a].re.h
+							h.readOK = true
+							if h.body == "" {
+								h.body = c18Bodies[0]
+							}
+							c18Facts(h, sc.checker)
+						}
+					}
+				}
+			}
+		}
+	}
+	each := func(h *c18Http) {
+		if h == nil {
+			return
+		}
+		h.xf = "-"
+		if sc.xform {
+			switch x := r.Intn(10); {
+			case x < 5:
+				h.xf = "k"
+			case x < 8 && !(sc.e2e != "" && sc.save):
+				// (not with a real connection + SetOutput: ToBytes closes the body it failed to transform and
+				// handleDownload then reads the closed body — an error of the transport's, not of a stage)
+				h.xf = "n" + strconv.Itoa(c18GenErr(r))
+			default:
+				h.xf = "b" + strconv.Itoa(c18GenErr(r))
+			}
+		}
+	}
+	for _, t := range sc.transport {
+		each(t.h)
+	}
+	for _, st := range sc.reqResp {
+		for _, a := range st {
+			if a.kind == "d" {
+				each(a.re.h)
+			}
+		}
+	}
+	for a, f := range sc.outFails {
+		// (a transformer that fails AND returns nil leaves nothing to copy: a failing io.Writer is then
+		// never written to, while a failing file creation still fails — the model does not tell the two
+		// kinds of output apart, so the combination is not generated)
+		if f && a < len(sc.transport) && sc.transport[a].h != nil && strings.HasPrefix(sc.transport[a].h.xf, "n") {
+			sc.transport[a].h.xf = "b" + sc.transport[a].h.xf[1:]
+		}
+		for _, st := range sc.reqResp {
+			if f && a < len(st) && st[a].kind == "d" && st[a].re.h != nil && strings.HasPrefix(st[a].re.h.xf, "n") {
+				st[a].re.h.xf = "b" + st[a].re.h.xf[1:]
+			}
+		}
+	}
+	if r.Intn(pClone) == 0 {
+		sc.path, sc.split = 1+r.Intn(3), r.Intn(1<<20)
+	}
+	sc.pkg = r.Intn(3) == 0
+	return sc
+}
 
 func c18GenStack(r *rand.Rand) *c18Scenario {
 	sc := &c18Scenario{entry: "dsvm"[r.Intn(4)], sT: r.Intn(3) != 0, eT: r.Intn(2) == 0, cE: r.Intn(2) == 0,
@@ -1271,7 +1763,7 @@ func c18GenStack(r *rand.Rand) *c18Scenario {
 		}
 		sc.reqResp = append(sc.reqResp, st)
 	}
-	return sc
+	return c18Finish(r, sc, 5, 4)
 }
 
 // c18GenStale: directed pattern "an attempt that binds a result, a retry, then a request
@@ -1308,11 +1800,11 @@ func c18GenStale(r *rand.Rand) *c18Scenario {
 			sc.clientResp[0][a] = c18Act{kind: "n"}
 		}
 	}
-	return sc
+	return c18Finish(r, sc, 8, 4)
 }
 
 func c18Human(sc *c18Scenario, impl string) string {
-	return sc.line("111")[8:] + " checker=" + sc.checker.name + " => " + impl
+	return sc.line(c18Repaired)[8:] + " checker=" + sc.checker.name + fmt.Sprintf(" clonepath=%d/%d", sc.path, sc.split) + " => " + impl
 }
 
 // c18ModelBuckets: histogram buckets derived from the MODEL's answer (what the repaired code
@@ -1326,6 +1818,36 @@ func c18ModelBuckets(hist *c18Hist, sc *c18Scenario, ans string) {
 		}
 	}
 	hist.Count("entry=" + string(sc.entry))
+	hist.Count("clonepath=" + strconv.Itoa(sc.path))
+	if sc.pkg && (sc.entry == 'v' || sc.entry == 'm') && !sc.sT && !sc.eT && len(sc.reqResp) == 0 && sc.maxRetries == 0 && !sc.save &&
+		!sc.unbounded && len(sc.ctxDone) == 0 && sc.conds == nil && len(sc.getBody) == 0 && !sc.unreplayable && !sc.builderErr &&
+		(sc.autoRead || sc.verb%2 == 0) {
+		hist.Count("pkg-level:" + map[byte]string{'v': "", 'm': "Must"}[sc.entry] + c18Verbs[sc.verb%len(c18Verbs)])
+	}
+	if sc.save {
+		hist.Count("save")
+	}
+	if sc.unbounded {
+		hist.Count("unbounded")
+		if strings.Count(f["log"], "|") > 0 {
+			hist.Count("unbounded-retried")
+		}
+	}
+	if len(sc.ctxDone) > 0 {
+		hist.Count("ctx-script")
+	}
+	if sc.xform {
+		hist.Count("xform")
+		for _, t := range sc.transport {
+			if t.h != nil && len(t.h.xf) > 1 {
+				hist.Count("xform-fails")
+				if strings.HasPrefix(f["err"], "s") || strings.HasPrefix(ans, "must err=s") {
+					hist.Count("xform-fails+err")
+				}
+				break
+			}
+		}
+	}
 	if f["log"] == "-" {
 		hist.Count("attempts=0")
 	} else {
@@ -1368,7 +1890,19 @@ func c18ModelBuckets(hist *c18Hist, sc *c18Scenario, ans string) {
 	}
 }
 
+// c18OddTag: the answer's final exchange is a digest re-send
+func c18OddTag(ans string) bool {
+	for _, kv := range strings.Fields(ans) {
+		if strings.HasPrefix(kv, "http=") {
+			n, err := strconv.Atoi(kv[5:])
+			return err == nil && n%2 == 1
+		}
+	}
+	return false
+}
+
 func c18RunLane(t *testing.T, s *verifh.Session, hist *c18Hist, scs []*c18Scenario) {
+	c18OutDir = t.TempDir()
 	impl := make([]string, len(scs))
 	verdict := make([]string, len(scs))
 	for i, sc := range scs {
@@ -1385,6 +1919,14 @@ func c18RunLane(t *testing.T, s *verifh.Session, hist *c18Hist, scs []*c18Scenar
 	if err != nil {
 		t.Fatalf("driver: %v -- treat as: no tests to run", err)
 	}
+	digestSaveOpen := c18ClassOpen("c18-digest-download-challenge")
+	for i := range scs {
+		// the known finding as the ORACLE sees it (the model does not carry the output's contents)
+		if class[i] == "" && verdict[i] == c18VerdictDigestSave && digestSaveOpen && impl[i] == model[i] &&
+			strings.Contains(impl[i], " http=") && c18OddTag(impl[i]) {
+			class[i], variant[i] = "c18-digest-download-challenge", c18Repaired
+		}
+	}
 	emit := func(i int, line, cls string, ok bool) {
 		sc := scs[i]
 		human := c18Human(sc, impl[i])
@@ -1399,7 +1941,7 @@ func c18RunLane(t *testing.T, s *verifh.Session, hist *c18Hist, scs []*c18Scenar
 		c18ModelBuckets(hist, scs[i], model[i])
 		if (impl[i] != model[i] || verdict[i] != "") && class[i] == "" {
 			hist.Count("unexplained")
-			emit(i, scs[i].line("111"), "", verdict[i] == "")
+			emit(i, scs[i].line(c18Repaired), "", verdict[i] == "")
 		}
 	}
 	// 2. a few representatives of each known defect, reported against the repaired model
@@ -1411,7 +1953,7 @@ func c18RunLane(t *testing.T, s *verifh.Session, hist *c18Hist, scs []*c18Scenar
 			if reps[class[i]] < 3 {
 				reps[class[i]]++
 				done[i] = true
-				emit(i, scs[i].line("111"), class[i], verdict[i] == "")
+				emit(i, scs[i].line(c18Repaired), class[i], verdict[i] == "")
 			}
 		}
 	}
@@ -1423,7 +1965,7 @@ func c18RunLane(t *testing.T, s *verifh.Session, hist *c18Hist, scs []*c18Scenar
 		case class[i] != "":
 			emit(i, scs[i].line(variant[i]), "", true)
 		default:
-			emit(i, scs[i].line("111"), "", true)
+			emit(i, scs[i].line(c18Repaired), "", true)
 		}
 	}
 }
@@ -1433,7 +1975,7 @@ func c18RunLane(t *testing.T, s *verifh.Session, hist *c18Hist, scs []*c18Scenar
 // checkers x auto-read x entry points.
 func TestVerif_C18_call(t *testing.T) {
 	s := verifh.New(t, "C18", "call",
-		"real client + scripted http.RoundTripper, no user stages: EVERY status 100..599 x {json, xml, other, none} content types x {well-formed, ill-formed, empty} bodies x target sets {success, error, common error type, none, combinations} x {default, custom} state checkers x auto-read on/off x read failure x entry points Do/Send/verb/Must* (quick: 6 random combinations per status; thorough: 60); observed (resp, err, resp.Err, hook count, final state, SuccessResult/ErrorResult + target contents, unmarshaller invocations) vs model and vs the independent contract oracle; non-trivial = every case")
+		"real client + scripted http.RoundTripper, no user stages: EVERY status 100..599 x {json, xml, other, none} content types x {well-formed, ill-formed, empty} bodies x target sets {success, error, common error type, none, combinations} x {default, custom} state checkers x auto-read on/off (either level) x read failure x response-body transformer {none, accepts, fails returning nil, fails returning a body} x SetOutput/SetOutputFile (output failing or not) x out-of-range state checker x entry points Do(), Do(ctx), Send, EVERY verb / Must* method of *Request (enumerated by reflection), the 14 package-level wrappers (one case per status), requests built by R / NewRequest / c.Post x the client obtained directly or through Clone (3 lineages, decoy stages on the other client) (quick: 12 combinations per status; thorough: 80); observed (resp, err, resp.Err, hook count, final state, SuccessResult/ErrorResult + target contents, unmarshaller invocations) vs model and vs the independent contract oracle; non-trivial = every case")
 	s.OracleIndependent = true
 	r := s.Rand()
 	hist := newC18Hist(s)
@@ -1449,11 +1991,11 @@ func TestVerif_C18_call(t *testing.T) {
 			h := &c18Http{status: code, readOK: r.Intn(12) != 0}
 			switch (k + code) % 4 {
 			case 0:
-				h.ct = verifh.Pick(r, []string{"application/json", "application/json; charset=utf-8", "application/problem+json"})
+				h.ct = verifh.Pick(r, []string{"application/json", "application/json; charset=utf-8", "application/problem+json", "application/JSON", "Application/Json"})
 			case 1:
-				h.ct = verifh.Pick(r, []string{"text/xml", "application/xml", "application/soap+xml; charset=utf-8"})
+				h.ct = verifh.Pick(r, []string{"text/xml", "application/xml", "application/soap+xml; charset=utf-8", "application/XML", "TEXT/Xml"})
 			case 2:
-				h.ct = verifh.Pick(r, []string{"text/plain", "text/html", "application/octet-stream", "application/JSON"})
+				h.ct = verifh.Pick(r, []string{"text/plain", "text/html", "application/octet-stream", "image/png"})
 			}
 			switch r.Intn(5) {
 			case 0:
@@ -1469,19 +2011,31 @@ func TestVerif_C18_call(t *testing.T) {
 			}
 			c18Facts(h, sc.checker)
 			sc.transport = []c18TOut{{fail: -1, h: h}}
+			c18Finish(r, sc, 4, 4)
+			if k == 0 {
+				// one case per status through a package-level wrapper (req.Get … req.MustPut: the default
+				// client), which needs a scenario that configures nothing at request level
+				sc.sT, sc.eT, sc.entry, sc.pkg, sc.save, sc.outFails = false, false, "vm"[r.Intn(2)], true, false, nil
+				if !sc.autoRead && sc.verb%2 == 1 {
+					sc.autoRead = true
+				}
+			}
 			scs = append(scs, sc)
 		}
 	}
 	c18RunLane(t, s, hist, scs)
 	s.Finish()
 	hist.need(t, "bound=success", "bound=errorR", "bound=errorC", "out=err:unm", "out=err:read", "out=mustpanic", "out=ok",
-		"final=S", "final=E", "final=U", "final=204", "ct=json", "ct=xml", "ct=other", "ct=none", "entry=d", "entry=s", "entry=v", "entry=m", "hook=1")
+		"final=S", "final=E", "final=U", "final=204", "ct=json", "ct=xml", "ct=other", "ct=none", "entry=d", "entry=s", "entry=v", "entry=m", "hook=1",
+		"pkg-level:Get", "pkg-level:Post", "pkg-level:Put", "pkg-level:Patch", "pkg-level:Delete", "pkg-level:Options", "pkg-level:Head",
+		"pkg-level:MustGet", "pkg-level:MustPost", "pkg-level:MustPut", "pkg-level:MustPatch", "pkg-level:MustDelete", "pkg-level:MustOptions",
+		"pkg-level:MustHead", "save", "out=err:output", "xform-fails+err", "clonepath=1", "clonepath=2", "clonepath=3")
 }
 
 // TestVerif_C18_pipe: generated middleware stacks.
 func TestVerif_C18_pipe(t *testing.T) {
 	s := verifh.New(t, "C18", "pipe",
-		"real client, generated stacks: 0..3 client request middleware, built-in block failure (bad URL), 0..3 wrapping round-trippers (pass / short-circuit with nil or fresh response / replace error / drop response / swallow / record), GetBody failure, scripted transport (error or any status/content type/body), 0..3 client response middleware and 0..3 request-level ones (nop / return error / set resp.Err / clear resp.Err) plus the built-in digest middleware with its second exchange, retry 0..3 with default rule or scripted conditions, every action scripted per attempt, targets, checkers, auto-read, error hook, entry points Do/Send/verb/Must*; a third of the stacks is 'quiet' (mostly succeeding stages); observed: returned (resp, err), resp.Err, hook count, final response (exchange tag, status, state, body cached, result/error slots), per-attempt invocation log of every middleware, wrapper, exchange and unmarshaller; non-trivial = not a builder error and no crash")
+		"real client, generated stacks: 0..3 client request middleware, built-in block failure (bad URL), 0..3 wrapping round-trippers (pass / short-circuit with nil or fresh response / replace error / drop response / swallow / record), GetBody failure, scripted transport (error or any status/content type/body), 0..3 client response middleware and 0..3 request-level ones (nop / return error / set resp.Err / clear resp.Err) plus the built-in digest middleware with its second exchange, retry 0..3 with default rule or scripted conditions, SetRetryCount(-1) ended by the conditions alone, transport errors that wrap context.Canceled, the context cancelled at the wait before a retry, every action scripted per attempt, targets, checkers (incl. out-of-range verdicts), auto-read, response-body transformer outcomes per exchange, SetOutput/SetOutputFile with per-attempt output failures, error hook, every entry point (see lane call), client obtained directly or through Clone with decoy stages on its relatives; a third of the stacks is 'quiet' (mostly succeeding stages); observed: returned (resp, err), resp.Err, hook count, final response (exchange tag, status, state, body cached AND whose body it is, result/error slots), saved output vs final body, per-attempt invocation log of every middleware, wrapper, exchange and unmarshaller; non-trivial = not a builder error and no crash")
 	s.OracleIndependent = true
 	r := s.Rand()
 	hist := newC18Hist(s)
@@ -1500,26 +2054,28 @@ func TestVerif_C18_pipe(t *testing.T) {
 	s.Finish()
 	hist.need(t, "bound=success", "bound=errorR", "bound=errorC", "out=err:unm", "out=err:s", "out=err:builtin", "out=err:getbody", "out=err:builder",
 		"out=err:unreplay", "out=err:digest", "out=mustpanic", "out=ok", "attempts=1", "attempts=2", "attempts=3", "attempts=4", "final=nohttp",
-		"digest-resent", "hook=1", "entry=d", "entry=s", "entry=v", "entry=m")
+		"digest-resent", "hook=1", "entry=d", "entry=s", "entry=v", "entry=m",
+		"save", "out=err:output", "unbounded-retried", "out=err:ctxdone", "out=err:ctxcanceled", "xform-fails+err",
+		"clonepath=1", "clonepath=2", "clonepath=3")
 }
 
 // TestVerif_C18_e2e: the same contract over a real connection: req's own Transport against an
 // in-process origin on loopback (net/http/httptest), which plays the scripted exchanges.
 func TestVerif_C18_e2e(t *testing.T) {
 	s := verifh.New(t, "C18", "e2e",
-		"real client AND real transport (HTTP/1.1 over loopback) against an in-process httptest origin playing the script: final statuses {200,201,202,204,206,300,304,400,401,404,409,500,503} x content types x well/ill-formed bodies x targets x checkers x auto-read x entry points, 0..2 client/request-level response middleware, retry with scripted conditions, and the digest middleware answering a real 401 challenge; same observations, model line and oracle as the pipe lane; non-trivial = every case")
+		"real client AND real transport (HTTP/1.1 over loopback) against an in-process httptest origin playing the script: final statuses {200,201,202,204,206,300,304,400,401,404,409,500,503} x content types x well/ill-formed bodies x targets x checkers x auto-read x entry points, 0..2 client/request-level response middleware, retry with scripted conditions, unbounded retry, context cancelled at the wait, body transformer, SetOutput/SetOutputFile, Clone lineages, the digest middleware answering a real 401 challenge, a 302 hop followed by the transport, and content presence as the wire shows it: HEAD, 204/205/304, Content-Length 0, chunked with no chunk, gzip of nothing; same observations, model line and oracle as the pipe lane; non-trivial = every case")
 	s.OracleIndependent = true
 	srv := httptest.NewServer(http.HandlerFunc(c18E2EServe))
 	defer srv.Close()
 	r := s.Rand()
 	hist := newC18Hist(s)
 	var scs []*c18Scenario
-	statuses := []int{200, 201, 202, 204, 206, 300, 304, 400, 401, 404, 409, 500, 503}
+	statuses := []int{200, 201, 202, 204, 205, 206, 300, 304, 400, 401, 404, 409, 500, 503}
 	gen := func(ck c18Checker, status int) *c18Http {
 		h := c18GenHTTP(r, ck, 75)
 		h.status, h.readOK = status, true
-		if status == 204 || status == 304 {
-			h.body = "" // a real origin cannot send one
+		if status == 204 || status == 304 || status == 205 {
+			h.body = "" // a real origin cannot (204, 304) or must not (205) send one
 		}
 		if status == 304 {
 			h.ct = "" // net/http's server suppresses Content-Type on 304
@@ -1532,7 +2088,7 @@ func TestVerif_C18_e2e(t *testing.T) {
 	}
 	for k := 0; k < verifh.N(500, 6000); k++ {
 		sc := &c18Scenario{entry: "dsvm"[r.Intn(4)], sT: r.Intn(4) != 0, eT: r.Intn(2) == 0, cE: r.Intn(2) == 0,
-			autoRead: r.Intn(4) != 0, hook: true, verb: r.Intn(5), checker: c18Checkers[0], e2e: srv.URL}
+			autoRead: r.Intn(4) != 0, hook: true, verb: r.Intn(5), checker: c18Checkers[0], e2e: srv.URL, framing: r.Intn(3), head: r.Intn(8) == 0}
 		if r.Intn(4) == 0 {
 			sc.checker = verifh.Pick(r, c18Checkers)
 		}
@@ -1579,12 +2135,44 @@ func TestVerif_C18_e2e(t *testing.T) {
 			}
 			sc.reqResp = append(sc.reqResp, st)
 		}
+		c18Finish(r, sc, 4, 3)
+		if !digest && r.Intn(4) == 0 {
+			sc.redir = true
+			hist.Count("redirect-hop")
+		}
+		if sc.head { // no body ever arrives: the script's bodies are empty
+			sc.outFails = nil
+			for _, t := range sc.transport {
+				if t.h != nil {
+					t.h.body = ""
+					c18Facts(t.h, sc.checker)
+				}
+			}
+			for _, st := range sc.reqResp {
+				for _, a := range st {
+					if a.kind == "d" && a.re.h != nil {
+						a.re.h.body = ""
+						c18Facts(a.re.h, sc.checker)
+					}
+				}
+			}
+		}
+		hist.Count("framing=" + strconv.Itoa(sc.framing))
+		if sc.head {
+			hist.Count("head")
+		}
+		for _, t := range sc.transport {
+			if t.h != nil && t.h.body == "" && !sc.xform {
+				hist.Count("empty-body/framing=" + strconv.Itoa(sc.framing))
+			}
+		}
 		scs = append(scs, sc)
 	}
 	c18RunLane(t, s, hist, scs)
 	s.Finish()
 	hist.need(t, "bound=success", "bound=errorR", "bound=errorC", "out=err:unm", "out=err:s", "out=mustpanic", "out=ok", "digest-resent",
-		"final=S", "final=E", "final=U", "final=204", "attempts=2", "hook=1")
+		"final=S", "final=E", "final=U", "final=204", "attempts=2", "hook=1", "head", "empty-body/framing=0", "empty-body/framing=1",
+		"empty-body/framing=2", "save", "unbounded-retried", "xform-fails+err", "clonepath=1", "redirect-hop")
 }
 
 // c18Corpus: minimal witnesses (also proved as counter-examples of the as-found model in
